@@ -269,6 +269,18 @@ def gen_exhaustive(rng, tier, P):
                 yield op, h + [y], tag
 
 
+# Branches of the anchored Rust code and the generated class that executes each of them:
+#  QuadExtField::mul_assign   extension_degree()==2 -> kind 2 (all Fq2, toy Fp2) ; Karatsuba -> kinds 4, 7, 12
+#  QuadExtField::square_in_place  NONRESIDUE == -1 -> bls12_381/bn254/toy7 Fq2 ; general -> every other quadratic level
+#  QuadExtField::inverse / CubicExtField::inverse  is_zero -> None: class 'zero' ; Alg 5.19 / Alg 17: all other classes
+#  DivAssign  inverse().unwrap() panics: class div/by_zero
+#  frobenius_map  table index power % degree: classes frob_k0..k(deg-1), powers beyond one period, 1000, 65537
+#  CubicExtField::norm  assert!(c1, c2 == 0): executed on every 'norm' case of kinds 3, 6
+#  cyclotomic_inverse  is_zero -> None: class cyc/zero ; conjugate: cyc/easy, cyc/one
+#  cyclotomic_exp  is_zero shortcut: cyc/zero ; NAF path (kinds 2, 4, 7, 12): negative digits with e_all_ones, e_64, ...;
+#                  bit path (kinds 3, 6) ; no non-zero digit at all: e0 ; leading zero limb: e_leading_zero_limb
+#  Fp12 cyclotomic_square  Granger-Scott branch: every Fq12 case (guard true for every prime > 3; else-branch unreachable)
+#  per-curve overrides of the non-residue methods: op mul_nr on cids 0, 1, 2 (Fq2 and Fq6), 7, 9 (Fq3)
 def gen(rng, tier):
     P = load_params()
     for c in gen_exhaustive(rng, tier, P):
@@ -284,7 +296,7 @@ def gen(rng, tier):
         if cid >= 10:
             w = 2.0          # toy towers: tiny case lines, denser sampling
         head = [[cid, kind], par]
-        tag = CURVES[cid] + '/' + KNAME[kind] + '/'
+        tag = KNAME[kind] + '/'      # the tower id is the first argument of every case (evidence: op x class)
 
         def E():
             return element(rng, p, deg, bdeg)
@@ -302,8 +314,9 @@ def gen(rng, tier):
         #           CubicExtField::mul_assign (3, 6)
         for _ in range(n(60)):
             x, cx = E()
-            y, cy = E()
+            y, _cy = E()
             r = rng.randrange(6)
+            cy = 'indep'
             if r == 0:
                 y, cy = list(x), 'equal'
             elif r == 1:
@@ -315,7 +328,7 @@ def gen(rng, tier):
         for _ in range(n(12)):
             x, cx = E()
             y, cy = E()      # y = 0 exercises `inverse().unwrap()` panicking in div_assign
-            yield 'div', head + [x, y], tag + cx + '/' + cy
+            yield 'div', head + [x, y], tag + 'div/' + ('by_zero' if not any(y) else 'nonzero')
         # --- unary ops.  square: complex path iff NONRESIDUE == -1 (bls12_381/bn254 Fq2), general
         # path otherwise (all other quadratic levels); CH-SQR2 for cubic levels.
         # inverse: is_zero -> None branch (class zero), Alg 5.19 / Alg 17 otherwise
@@ -331,13 +344,13 @@ def gen(rng, tier):
         for _ in range(n(40)):
             x, cx = E()
             k = rng.choice(list(range(0, 2 * deg + 2)) + [deg * 7 + 1, 1000, 65537])
-            yield 'frobenius', head + [x, [k]], tag + cx + '/k%d' % (k % deg)
+            yield 'frobenius', head + [x, [k]], tag + 'frob_k%d' % (k % deg)
         # Frobenius by k versus x^(p^k)
         kmax = 3 if (big or deg >= 12) else deg
         for _ in range(n(4) if (big and deg >= 6) or deg >= 12 else n(8)):
             x, cx = E()
             k = rng.randrange(0, kmax + 1)
-            yield 'frobenius_pow', head + [x, [k]], tag + cx + '/k%d' % k
+            yield 'frobenius_pow', head + [x, [k]], tag + 'frobpow_k%d' % k
         # --- multiplication by base-field / prime-field elements
         for _ in range(n(14)):
             x, cx = E()
@@ -351,34 +364,34 @@ def gen(rng, tier):
                 ops.append('mul_by_fp2')
             if kind == 6:
                 ops += ['mul_by_fp2', 'mul_assign_by_fp2']
-            yield rng.choice(ops), head + [x, e], tag + cx + '/' + ce
+            yield rng.choice(ops), head + [x, e], tag + cx
         # --- the specialisable non-residue methods (per-curve overrides: bls12_381/bls12_377/bn254
         # Fq2 + Fq6, bw6_761/cp6_782 Fq3; structural defaults of Fp4, Fp6 2-over-3, Fp12)
         for _ in range(n(16)):
             y, cy = BE()
             z, cz = BE()
-            yield 'mul_nr', head + [y, z], tag + cy + '/' + cz
+            yield 'mul_nr', head + [y, z], tag + 'mul_nr'
         # --- sparse multiplications
         if kind == 7:
             for _ in range(n(30)):
                 x, cx = E()
                 s = [rng.choice([0, 1, p - 1, rng.randrange(p), rng.randrange(p), rng.randrange(p)]) for _ in range(3)]
-                yield rng.choice(['mul_by_034', 'mul_by_014']), head + [x, s], tag + cx + '/s%d' % sum(1 for v in s if v)
+                yield rng.choice(['mul_by_034', 'mul_by_014']), head + [x, s], tag + 'sparse/' + cx + '/nz%d' % sum(1 for v in s if v)
         if kind == 6:
             for _ in range(n(30)):
                 x, cx = E()
                 e0, c0 = element(rng, p, 2, 1)
                 e1, c1 = element(rng, p, 2, 1)
                 if rng.randrange(2):
-                    yield 'mul_by_1', head + [x, e1], tag + cx + '/' + c1
+                    yield 'mul_by_1', head + [x, e1], tag + 'sparse/' + cx + '/nz%d' % (1 if any(e1) else 0)
                 else:
-                    yield 'mul_by_01', head + [x, e0, e1], tag + cx + '/' + c0 + '/' + c1
+                    yield 'mul_by_01', head + [x, e0, e1], tag + 'sparse/' + cx + '/nz%d' % ((1 if any(e0) else 0) + (1 if any(e1) else 0))
         if kind == 12:
             for _ in range(n(40)):
                 x, cx = E()
                 es = [element(rng, p, 2, 1) for _ in range(3)]
                 yield (rng.choice(['mul_by_034', 'mul_by_014']), head + [x] + [e for e, _ in es],
-                       tag + cx + '/' + '/'.join(c for _, c in es))
+                       tag + 'sparse/' + cx + '/nz%d' % sum(1 for e, _ in es if any(e)))
         # --- cyclotomic operations.  mode 0: the element itself (only zero and one: the warning
         # in cyclotomic.rs restricts the domain to the subgroup); mode 1: easy-part output of f.
         # Fp12: Granger-Scott branch (characteristic_square_mod_6_is_one is true for every shipped p)
@@ -389,13 +402,13 @@ def gen(rng, tier):
                 mode = 0
             else:
                 x, cx = nonzero_element(rng, p, deg, bdeg)
-                cx = 'easy_of_' + cx
+                cx = 'easy'
                 mode = 1
             if op == 'cyc_exp':
                 e, ce = exponent(rng)
-                yield op, head + [x, [mode], e], tag + cx + '/' + ce
+                yield op, head + [x, [mode], e], tag + 'cyc/' + cx + '/' + ce
             else:
-                yield op, head + [x, [mode]], tag + cx
+                yield op, head + [x, [mode]], tag + 'cyc/' + cx
 
 
 def _bits(case):
@@ -444,4 +457,7 @@ HYPOTHESES = ['ring_theory of the base dictionary (commutative-ring laws of the 
               'for inverses: the norm has a multiplicative inverse (n * finv n = 1)',
               'for Frobenius: the base map is a ring homomorphism and the coefficient satisfies c^2 * nr = frob(nr) '
               '(quadratic) / c1^3 * nr = frob(nr), c2 = c1^2 (cubic)',
-              'for Granger-Scott: the three Fp4-coordinate relations of the cyclotomic subgroup']
+              'for Granger-Scott: the three Fp4-coordinate relations of the cyclotomic subgroup (gs_cyclotomic)',
+              'assembled towers: the constants the per-curve overrides hard-wire (fp2_consts_ok, fp3_consts_ok, '
+              'fp6a_consts_ok: e.g. bls12_381 nr2 = -1, nr6 = 1+u) and structural generators as Fp4/Fp6(2/3)/Fp12 non-residues',
+              'Frobenius = power (partial): freshman identity (u+v)^n = u^n + v^n in the extension and X^n = c X']
